@@ -1,3 +1,8 @@
 package main
-import ("verifmon/internal/cli"; "verifmon/internal/evid")
+
+import (
+	"verifmon/internal/cli"
+	"verifmon/internal/evid"
+)
+
 func runC11(o *cli.Opts, run *evid.Run) { panic("todo") }
